@@ -119,6 +119,9 @@ def realise(cin, variant):
         else:
             b = em.DailyBaselineData(frame, **kw)
             m = em.DailyModel() if cin["prof"] == "current" else em.DailyModel(model="legacy")
+        if cin.get("prior", "none") != "none":
+            pf, pkw = dataset(cin["prior"], cin["fam"])
+            m.fit((em.BillingBaselineData if cin["fam"] == "billing" else em.DailyBaselineData)(pf, **pkw), ignore_disqualification=True)
         m.fit(b, ignore_disqualification=True)
         segmin = m.settings.segment_minimum_count
         for name, comp in m.fit_components.items():
